@@ -5,6 +5,7 @@ import (
 	"io"
 	"math/rand"
 	"os"
+	"os/exec"
 	"path/filepath"
 	"regexp"
 	"runtime"
@@ -342,6 +343,15 @@ func c18Inputs(c *core.Ctx, n int) []c18Input {
 			}
 		}
 	}
+	// a malformed line directly followed by something the reader cannot deliver (a line beyond the line buffer, a
+	// read error before the next line end): the first error of the callback parser is the malformed line
+	for k, bad := range []string{"  x: abc", "  no separator", "  y: 1,5"} {
+		long := "a:\n  fine: 1\n" + bad + "\n  # " + strings.Repeat("n", 66000+k) + "\nb:\n  y: 2\n"
+		ins = append(ins, c18Input{class: "malformed-then-long-line", text: long, limit: -1, chunk: []int{0, 7, 64}[k]})
+		short := "a:\n  fine: 1\n" + bad + "\n  next: 2\nb:\n  y: 2\n"
+		at := strings.Index(short, bad) + len(bad) + 1
+		ins = append(ins, c18Input{class: "malformed-then-read-error", text: short, limit: at + k, chunk: []int{0, 1, 7}[k], partial: k == 1})
+	}
 	// seekable readers handed over at an offset > 0 (a header block already consumed by the caller)
 	for i := 0; i < n/25+2; i++ {
 		r := c.Rng("resumed", i)
@@ -581,6 +591,59 @@ func runC18(c *core.Ctx) {
 			}
 		})
 	})
+	// the same comparison made by a process that is not root, on files it may read but does not own (a system-wide
+	// food database, a file under /proc): who opens the file is not part of the input
+	{
+		drop := []string{"setpriv", "--reuid=65534", "--regid=65534", "--clear-groups"}
+		owned := filepath.Join(c.Work, "owned-by-root.yaml")
+		avail := true
+		if !c.InChild() {
+			os.WriteFile(owned, []byte("2021/01/01:\n  a: 1\n  b: 2.5\n2021/01/02:\n  c: 3\n"), 0o644)
+			os.Chmod(c.Work, 0o777)
+			if exec.Command(drop[0], append(append([]string{}, drop[1:]...), "test", "-x", os.Args[0], "-a", "-r", owned)...).Run() != nil {
+				avail = false
+				c.Count("runs_as_another_user_not_available", 1)
+			}
+		}
+		if avail {
+			c.RunPartAs("l3-as-another-user", 5*time.Minute, drop, func(c *core.Ctx) {
+				for fi, file := range []string{owned, "/proc/version", "/etc/hostname", "/etc/passwd"} {
+					if _, err := os.Stat(file); err != nil {
+						continue
+					}
+					in := c18Input{class: "file-of-another-user", file: file}
+					nodes, firstErr, _ := c18Reference(in)
+					for _, policy := range []string{"A", "B"} {
+						trace, pattern, verdict := c18Run(c, in, policy, c.Rng("other-user", fi), 0)
+						c.Eval(1)
+						c.Count("runs_as_another_user", 1)
+						c.Nontrivial("other-user", file, policy)
+						var want []string
+						for _, nd := range nodes {
+							want = append(want, "node("+nd+")")
+						}
+						if firstErr != "" {
+							want = append(want, "err("+firstErr+")")
+						}
+						if policy == "A" && firstErr == "" {
+							want = append(want, "done")
+						}
+						if policy == "B" {
+							want = append(want, "done", "exited")
+						}
+						if verdict == "watchdog" {
+							c.Inconclusive("l3-as-another-user", "watchdog on "+file)
+							continue
+						}
+						if verdict != "" || strings.Join(trace, "\n") != strings.Join(want, "\n") {
+							c.Violation("ParseFile policy "+policy+"|trace-mismatch-as-another-user", fmt.Sprintf("uid 65534 reading %s (owned by root, readable): observed %v, want %v (%s)", file, clipList(trace), clipList(want), verdict),
+								map[string]any{"file": file, "policy": policy, "jitter_pattern": pattern, "expected_trace": want, "observed_trace": trace, "run_as": joinArgs(drop)})
+						}
+					}
+				}
+			})
+		}
+	}
 	if !c.InChild() {
 		c18CommandGoroutines(c)
 	}
